@@ -23,6 +23,12 @@ impl<T> HashSet<T> {
     pub fn contains(&self, k: &T) -> (r: bool) ensures r == self.view().contains(*k) { unimplemented!() }
     #[verifier::external_body]
     pub fn insert(&mut self, k: T) -> (r: bool) ensures final(self).view() == old(self).view().insert(k), r == !old(self).view().contains(k) { unimplemented!() }
+    #[verifier::external_body]
+    pub fn remove(&mut self, k: &T) -> (r: bool) ensures final(self).view() == old(self).view().remove(*k), r == old(self).view().contains(*k) { unimplemented!() }
+    #[verifier::external_body]
+    pub fn clear(&mut self) ensures final(self).view() == Set::<T>::empty() { unimplemented!() }
+    #[verifier::external_body]
+    pub fn is_empty(&self) -> (r: bool) ensures r == (self.view() == Set::<T>::empty()) { unimplemented!() }
 }
 impl<T> Clone for HashSet<T> { #[verifier::external_body] fn clone(&self) -> (r: Self) ensures r.view() == self.view() { unimplemented!() } }
 #[verifier::external_body]
@@ -34,6 +40,12 @@ impl<T> BTreeSet<T> {
     pub fn remove(&mut self, k: &T) -> (r: bool) ensures final(self).view() == old(self).view().remove(*k) { unimplemented!() }
     #[verifier::external_body]
     pub fn insert(&mut self, k: T) -> (r: bool) ensures final(self).view() == old(self).view().insert(k) { unimplemented!() }
+    #[verifier::external_body]
+    pub fn contains(&self, k: &T) -> (r: bool) ensures r == self.view().contains(*k) { unimplemented!() }
+    #[verifier::external_body]
+    pub fn clear(&mut self) ensures final(self).view() == Set::<T>::empty() { unimplemented!() }
+    #[verifier::external_body]
+    pub fn is_empty(&self) -> (r: bool) ensures r == (self.view() == Set::<T>::empty()) { unimplemented!() }
 }
 #[verifier::external_body]
 pub struct ActorId { _p: () }
